@@ -72,10 +72,16 @@ def run_case(runs, derive=False):
     derived = {"fmtstr(f, bold=False)": lambda: fmtstr(f, bold=False),
                "f.copy_with_new_atts(underline=False, invert=False)": lambda: f.copy_with_new_atts(underline=False, invert=False),
                "f.new_with_atts_removed('fg')": lambda: f.new_with_atts_removed("fg"), "f[1:]": lambda: f[1:], "f + f": lambda: f + f,
+               "f[0:1]": lambda: f[0:1], "f[:-1]": lambda: f[:-1], "f.width_aware_slice(slice(0, 1))": lambda: f.width_aware_slice(slice(0, 1)),
+               "f.width_aware_slice(slice(1, 3))": lambda: f.width_aware_slice(slice(1, 3)),
                "fmtstr(f, 'red')": lambda: fmtstr(f, "red"), "'x' + f": lambda: "x" + f, "f.splice('y', 1)": lambda: f.splice("y", 1)}
     for name, mkv in derived.items():
         try:
             g = mkv()
+        except ValueError as e:
+            if "width_aware" in name:
+                continue        # text that has no width (control characters): column slicing refuses it (C10), nothing to display
+            return f"{name} raised {type(e).__name__}: {e}"
         except Exception as e:
             return f"{name} raised {type(e).__name__}: {e}"
         d = run_value(g)
@@ -165,6 +171,26 @@ def bounded(check, tier, seed):
             r = _pyte_case(runs)
             if r:
                 check.engine_error(f"reference interpreter and pyte disagree on {runs}: {r}")
+    s.done()
+
+
+CODE_LIKE = ["31", "1m", "[34", "0m", "39m", "4m", ";", "m", "[", "22", "7m7", "[0m", "44", "[1;31m", "38;5;1m", "3", "1", "m31"]
+
+
+def code_like_texts(check, tier):
+    """run texts that look like pieces of the SGR sequences the rendering itself writes (digits, ';', '[', 'm'): they are text"""
+    dicts = [d for i, d in enumerate(R.all_dicts(False)) if i % 97 == 0] + [{"fg": 31}, {"bold": True}, {"fg": 34, "bg": 44}, {"underline": True}, {"fg": 33},
+                                                                          {"bg": 41, "invert": True}, {"dark": True, "fg": 32}]
+    s = Suite(check, "C01.code_like_texts", f"{len(CODE_LIKE)} run texts made of the characters of SGR sequences ('31', '1m', '[34', '0m', ...) x {len(dicts)} "
+              "attribute dicts, as one run, between two other runs, and after the value was rendered: sliced / re-formatted / joined values "
+              "derived from it (incl. one-character and column slices)", bound=f"{len(CODE_LIKE)} texts x {len(dicts)} dicts x 2 layouts")
+    for t in CODE_LIKE:
+        for d in dicts:
+            for runs in ([[t, d]], [["a", {"fg": 32}], [t, d], [t, {"bold": True}]]):
+                s.case((t, repr(d), len(runs)), sample=dict(runs=runs))
+                r = run_case(runs, derive=True)
+                if r:
+                    s.fail("C01.str.code_like_text", dict(runs=runs), r, replay={"kind": "suite", "module": "props.C01", "case": dict(runs=runs)})
     s.done()
 
 
@@ -304,4 +330,5 @@ def run(check, tier, seed):
     bounded(check, tier, seed)
     derived(check, tier, seed)
     interrupted(check, tier)
+    code_like_texts(check, tier)
     histories(check, tier, seed)
